@@ -199,13 +199,13 @@ def A_case(draw):
     case.update({'sites': sites, 'reactants': reactants, 'bulk_reactant': draw(st.booleans()),
                  'scale': draw(gen.logf(0.1, 10.0)), 'op': draw(st.sampled_from(['sum', 'min', 'max', 'mean'])),
                  'units': draw(st.sampled_from(['molec/cm2', 'mol/cm2', 'mol/m2', 'molec/m2'])),
-                 'with_ts': draw(st.booleans())})
+                 'with_ts': draw(st.booleans()), 'ts_dS': draw(st.floats(-5, 5))})
     return case
 
 
-def _const_nasa(name, phase, **kw):
+def _const_nasa(name, phase, dS=0.0, **kw):
     from pmutt.empirical.nasa import Nasa
-    a = [4.0, 0.0, 0.0, 0.0, 0.0, -1000.0, 5.0]
+    a = [4.0, 0.0, 0.0, 0.0, 0.0, -1000.0, 5.0 + dS]
     return Nasa(name=name, T_low=100., T_mid=1000., T_high=5000., a_low=a, a_high=a, phase=phase, **kw)
 
 
@@ -271,7 +271,7 @@ def check_A(case, ctx):
                 reactants.append(_const_nasa('BULK0(B)', 'S', cat_site=sites[0]))
                 stoich.append(1.0)
             prod = [_const_nasa('PROD(S)', 'S', cat_site=sites[0], n_sites=1)]
-            tsp = [_const_nasa('TS(S)', 'S', cat_site=sites[0], n_sites=1)] if case['with_ts'] else None
+            tsp = [_const_nasa('TS(S)', 'S', dS=case.get('ts_dS', 0.0), cat_site=sites[0], n_sites=1)] if case['with_ts'] else None
             return ChemkinReaction(reactants=reactants, reactants_stoich=stoich, products=prod, products_stoich=[1.0],
                                    transition_state=tsp, transition_state_stoich=[1.0] if tsp else None)
         from pmutt.omkm.phase import InteractingInterface, IdealGas
@@ -290,7 +290,7 @@ def check_A(case, ctx):
         prod[0].phase = ifaces[0]
         tsp = None
         if case['with_ts']:
-            tsp = [_const_nasa('TS(S)', None)]
+            tsp = [_const_nasa('TS(S)', None, dS=case.get('ts_dS', 0.0))]
             tsp[0].phase = ifaces[0]
         return SurfaceReaction(reactants=reactants, reactants_stoich=stoich, products=prod, products_stoich=[1.0],
                                transition_state=tsp, transition_state_stoich=[1.0] if tsp else None)
@@ -336,8 +336,19 @@ def check_A(case, ctx):
                   atol=1e-10, detail='n_surf=%r op=%s' % (nsurf, op))
     else:
         # constant species: delta S(act) = 0, so the same value is expected with a TS (A/T convention)
+        # default route: species without a partition function count with q = 1 (pmutt._ModelBase.get_q), so the value
+        # without activation entropy is expected (A/T convention)
         ctx.close('C09.A/TS-value', math.log(A1), math.log(kBh) - (nsurf - 1) * math.log(eff), rtol=1e-12,
                   atol=1e-9, detail='n_surf=%r op=%s' % (nsurf, op))
+        # entropy route through the same getter: (kB/h) exp(dS_act/R) / sigma^(n-1), and kB/h / sigma^(n-1) when the
+        # entropy is switched off
+        dS_act = float(r1.transition_state[0].get_SoR(T=T)) - sum(
+            st_ * float(sp_.get_SoR(T=T)) for sp_, st_ in zip(r1.reactants, r1.reactants_stoich))
+        ctx.close('C09.A/TS-entropy-route', math.log(r1.get_A(use_q=False, **kw)),
+                  math.log(kBh) + dS_act - (nsurf - 1) * math.log(eff), rtol=1e-12, atol=1e-9 * (1 + abs(dS_act)),
+                  detail='n_surf=%r op=%s dS_act=%r' % (nsurf, op, dS_act))
+        ctx.close('C09.A/TS-entropy-off', math.log(r1.get_A(use_q=False, include_entropy=False, **kw)),
+                  math.log(kBh) - (nsurf - 1) * math.log(eff), rtol=1e-12, atol=1e-9, detail='n_surf=%r op=%s' % (nsurf, op))
     # the same object asked again under every other operation / unit system (no value sticks to the object)
     for op2 in ('sum', 'min', 'max', 'mean'):
         for u2 in (OMKM_UNITS if case['kind'] == 'omkm' else [None]):
